@@ -1,9 +1,9 @@
 CONSTANTS
   Sessions = {"s1", "s2"}
   Names = {"t1", "t2"}
-  MaxGen = 2
-  MaxReq = 1
-  TotalReq = 2
+  MaxGen = 3
+  MaxReq = 2
+  TotalReq = 3
   Ops = {"sub", "leave", "unsub", "pub", "del", "disc"}
   CapHub = 9
   EvictBudget = 1
